@@ -17,6 +17,8 @@ def check(ctx, rep):
     B.rule_sentinel(m, rep)
     B.rule_panic_propagates(m, rep)
     A.rule_loop(m, rep, 'R3')
+    A.rule_task_closure(m, rep, 'R3', parts=('once',))
+    B.rule_task_own_panics(m, rep, 'R3')
     B.rule_panics_getter(m, rep)
     A.rule_counters(m, rep)
     from ..report import Report
